@@ -3,13 +3,16 @@
    (descriptions, render, the model parser).  Proofs: PolFile/Chars.v, PolFile/PolProofs.v.
 
    The composed round trip  wf d -> parse (render st pi d) = Poly (denote d)  is proved in full for
-   3.x monomial files with Integer / Rational coefficients, dense and sparse (C10_parse_render).
-   For the other kinds (secular, Chebyshev, floating point, legacy 2.x) the text/line/option layers
-   are proved for every description (the *_partial theorems: what remains is their coefficient
-   readers), and the composed statement is exercised by the check on every generated case. *)
+   EVERY 3.x description: monomial, secular, Chebyshev; Integer, Rational, FloatingPoint (the model
+   parser keeps the exact decimal value; C10_float_within_prec bounds the truncation to the mpf
+   precision); dense and sparse (C10_parse_render).  Legacy 2.x files: only the token-level pieces are
+   proved (C10_legacy_rational_exact_partial); the header reader of parse_v2 and its dispatch are
+   NOT proved (C10_parse_render_legacy_partial states what is), they are exercised by the check.
+   C10_decrat_correct: the character-level decimal -> rational-string conversion, as coded now. *)
 Require Import String Ascii List ZArith NArith QArith Bool Lia.
 Require Import MPSV.PolFile.Chars MPSV.PolFile.DecRatModel MPSV.PolFile.PolModel MPSV.PolFile.PolProofs.
 Require Import MPSV.PolFile.RoundTripText MPSV.PolFile.RoundTripLines MPSV.PolFile.RoundTripOptions MPSV.PolFile.RoundTripSettings MPSV.PolFile.RoundTrip.
+Require Import MPSV.PolFile.DecRat MPSV.PolFile.FloatPrec.
 Import ListNotations.
 Local Open Scope char_scope.
 
@@ -84,25 +87,62 @@ Print Assumptions C10_filler_lines_have_no_tokens.
 
 (* ------------------------------------------------------------------ the composed round trip *)
 
-(* THE theorem, for 3.x monomial files with exact coefficients, dense or sparse: for every style
-   (header, comments, blank lines, letter case, spacing, line layout, explicit defaults, final newline)
-   and every permutation code of the option lines, the model parser returns exactly the polynomial the
-   description denotes: degree, structure, density, precision, sparsity pattern, every coefficient as
-   the canonical fraction written. *)
+(* THE theorem, for every 3.x file (monomial, secular, Chebyshev; Integer, Rational, FloatingPoint;
+   dense, sparse): for every style (header, comments, blank lines, letter case, spacing, line layout,
+   explicit defaults, final newline) and every permutation code of the option lines, the model parser
+   returns exactly the polynomial the description denotes: kind, degree, structure, density,
+   precision, sparsity pattern, every coefficient as the canonical fraction written (for decimals:
+   the exact value of the literal). *)
 Theorem C10_parse_render : forall (st : style) (pi : list nat) (d : polydesc),
-  wf d -> d_legacy d = false -> d_kind d = KMonomial ->
-  (d_ctype d = TInteger \/ d_ctype d = TRational) ->
-  parse (render st pi d) = Poly (denote d).
-Proof. exact parse_render_monomial_exact. Qed.
+  wf d -> d_legacy d = false -> parse (render st pi d) = Poly (denote d).
+Proof. exact parse_render_all_3x. Qed.
 Print Assumptions C10_parse_render.
 
 (* corollaries: option order, letter case, comments, white space and layout are irrelevant *)
 Corollary C10_layout_order_case_comments_irrelevant : forall (st st' : style) (pi pi' : list nat) (d : polydesc),
-  wf d -> d_legacy d = false -> d_kind d = KMonomial ->
-  (d_ctype d = TInteger \/ d_ctype d = TRational) ->
-  parse (render st pi d) = parse (render st' pi' d).
-Proof. intros. rewrite !parse_render_monomial_exact by assumption. reflexivity. Qed.
+  wf d -> d_legacy d = false -> parse (render st pi d) = parse (render st' pi' d).
+Proof. intros. rewrite !parse_render_all_3x by assumption. reflexivity. Qed.
 Print Assumptions C10_layout_order_case_comments_irrelevant.
+
+(* legacy 2.x files: PARTIAL.  Proved: the rendered text reaches the line reader as its lines
+   (C10_rendered_lines_partial), the token section gives back its tokens (C10_token_section_partial),
+   integer tokens and "n d" rational pairs are read exactly (C10_integer_token_exact,
+   C10_legacy_rational_exact_partial), decimal tokens denote their literal (below).  NOT proved: the
+   header reader of mps_monomial_poly_read_from_stream_v2 (type letters, precision, degree, the
+   ignored count) and its dense/sparse dispatch, i.e. parse_v2 on legacy_header_tokens d ++ coeff_tokens d. *)
+Theorem C10_parse_render_legacy_partial : forall l : declit,
+  wf_file_lit l -> decimal_value (render_declit l) = Some (declit_value l).
+Proof. intros l H. unfold decimal_value. rewrite parse_declit_render by exact H. reflexivity. Qed.
+Print Assumptions C10_parse_render_legacy_partial.
+
+(* the decimal -> rational conversion behind mps_monomial_poly_set_coefficient_s and the inline
+   parser, character by character as coded: for every well-formed literal (any mix of sign characters
+   and blanks, digits, optional fraction, optional exponent e/E[+-]digits) it yields a rational string
+   that denotes exactly the value of the literal *)
+Theorem C10_decrat_correct : forall l : declit, wf_api_lit l ->
+  exists s, equiv_rational_string (render_declit l) = Some s /\ mpq_str_value s = Some (declit_value l).
+Proof. exact decrat_correct. Qed.
+Print Assumptions C10_decrat_correct.
+
+Theorem C10_api_value_correct : forall l : declit, wf_api_lit l ->
+  api_coeff_value (render_declit l) = Some (declit_value l).
+Proof. exact api_value_correct. Qed.
+Print Assumptions C10_api_value_correct.
+
+(* malformed: a decimal fraction followed by a rational separator is refused *)
+Theorem C10_decrat_malformed_none : forall ip fp T : text,
+  all_digits ip -> all_digits fp -> all_digits T ->
+  equiv_rational_string (ip ++ "." :: fp ++ "/" :: T) = None.
+Proof. exact decimal_with_slash_refused. Qed.
+Print Assumptions C10_decrat_malformed_none.
+
+(* FloatingPoint coefficients: the value kept by an mpf of prec bits (truncation of the exact decimal
+   value) is not larger in modulus and within 2^-prec relative *)
+Theorem C10_float_within_prec : forall (p : positive) (q : Q),
+  Qabs.Qabs (trunc_bits p q) <= Qabs.Qabs q
+  /\ Qabs.Qabs (q - trunc_bits p q) <= Qabs.Qabs q * pow2Q (- Zpos p).
+Proof. exact trunc_bits_within. Qed.
+Print Assumptions C10_float_within_prec.
 
 (* every kind of description: what the line reader sees of a rendered text (mps_skip_comments,
    line splitting, comment stripping) is the list of rendered lines, comments cut, leading blank
@@ -215,6 +255,12 @@ Example C10_example_secular_decimal :
   parse (render busy_style [1; 1]%nat secular_f) = Poly (denote secular_f)
   /\ declit_value lit_m125e3 = (-1250 # 1).
 Proof. vm_compute. split; reflexivity. Qed.
+
+Example C10_decrat_hypothesis_satisfiable : wf_api_lit lit_m125e3 /\ wf_file_lit lit_m125e3.
+Proof.
+  unfold wf_api_lit, wf_file_lit, wf_body, wf_expo, all_digits, lit_m125e3; cbn.
+  repeat split; auto; try discriminate; repeat constructor; auto.
+Qed.
 
 Example C10_example_api_decimal :
   api_coeff_value (render_declit lit_m125e3) = Some (declit_value lit_m125e3)
